@@ -48,6 +48,29 @@ def g_cookie_collision(repo):
     finally:
         d.close()
 
+def g_c11_prefix(repo):
+    """C11 dispatcher obligation: the parser is shown every byte of the flow.  Known finding: a segment that ends
+    before the signature completes is consumed by the matcher only; the HTTP parser never sees it."""
+    stream = b'GET / HTTP/1.1\r\n\r\n'
+    def run(cuts):
+        d = R.Driver(repo)
+        try:
+            d.cfg(mac=R.MAC)
+            src, dst, sp, dp = '10.0.0.2', '10.0.0.1', 40100, 80
+            c = d.cookie(src, dst, sp, dp)
+            seq = 1000; out = []
+            for seg in cuts:
+                r = d.frame(R.eth(R.MAC, R.PEER, 0x0800, R.ip4(src, dst, 6, R.tcp(sp, dp, seq, (c + 1) & 0xffffffff, R.PSH | R.ACK, seg))))
+                seq += len(seg)
+                out.append(len(r[1]) - 54 if r[0] == 'reply' else None)
+            return out
+        finally:
+            d.close()
+    one = run([stream]); late = run([stream[:8], stream[8:]]); early = run([stream[:2], stream[2:]])
+    info = {'obligation': 'ground/C11/identification-prefix-not-fed', 'one_segment_payload_len': one, 'cut_after_8': late, 'cut_after_2': early}
+    same = (one[-1] or 0) > 0 and (late[-1] or 0) == one[-1] and (early[-1] or 0) == one[-1]
+    return same, info
+
 # ----------------------------------------------------------------------------- per-property driver
 def run(pid, tier, repo, build, seed):
     res = {'obligations': 0, 'discharged': 0, 'violations': [], 'undecided': [], 'details': []}
@@ -109,6 +132,10 @@ def run(pid, tier, repo, build, seed):
                         'witness': {'payload_hex': x['witness'].hex(), 'kind': x['kind'], 'signature': x['sig']}})
                 if disc:
                     res['obligations'] += len(keys) - 1
+        if pid == 'C11':
+            same, info = g_c11_prefix(repo)
+            add(same, info, 'ground/C11/identification-prefix-not-fed',
+                'the first request on a flow is answered identically however the stream is cut (witness: GET / HTTP/1.1 cut after 2 bytes)')
         if pid in ('C07', 'C08'):
             rep, info = g_cookie_collision(repo)
             # the obligation "distinct flows have distinct cookies" is FALSE when the witness reproduces
